@@ -125,6 +125,36 @@ def run_cli(cmd, text, timeout_s):
         os.unlink(path)
 
 
+def race_cli(text, timeout_s):
+    """run cvc5 and z3 4.8 concurrently on the same file; stop as soon as one of them answers sat/unsat"""
+    with tempfile.NamedTemporaryFile('w', suffix='.smt2', delete=False, dir=os.environ.get('VERIF_SCRATCH', '/var/tmp')) as f:
+        f.write(text)
+        path = f.name
+    cmds = {'cvc5-1.0.3': ['/usr/bin/cvc5', '--lang=smt2', '--strings-exp', f'--tlimit={int(timeout_s * 1000)}', path],
+            'z3-4.8.12': ['/usr/bin/z3', '-smt2', f'-T:{int(timeout_s)}', path]}
+    procs = {nm: subprocess.Popen(c, stdout=subprocess.PIPE, stderr=subprocess.DEVNULL, text=True) for nm, c in cmds.items()}
+    out = {}
+    deadline = time.time() + timeout_s + 3
+    try:
+        while procs and time.time() < deadline:
+            for nm, p_ in list(procs.items()):
+                if p_.poll() is not None:
+                    lines = (p_.stdout.read() or '').strip().splitlines()
+                    r = lines[0].strip() if lines else 'unknown'
+                    out[nm] = r if r in ('sat', 'unsat') else 'unknown'
+                    del procs[nm]
+                    if out[nm] in ('sat', 'unsat'):
+                        deadline = 0
+            time.sleep(0.02)
+    finally:
+        for nm, p_ in procs.items():
+            p_.kill()
+            p_.wait()
+            out.setdefault(nm, 'unknown')
+        os.unlink(path)
+    return out
+
+
 def cvc5_check(text, timeout_s):
     return run_cli(['/usr/bin/cvc5', '--lang=smt2', '--strings-exp', f'--tlimit={int(timeout_s * 1000)}'], text, timeout_s)
 
@@ -148,18 +178,31 @@ def has_big_numeral(formulas, limit=100000):
 
 
 def inprocess_check(formulas, timeout_s, on_model=None):
+    """z3 in this process with its own timeout, plus a SIGALRM watchdog (same thread, so no fork/thread hazards) that
+    interrupts the context if z3 overruns its budget"""
+    import signal
     import threading
     s = z3.Solver()
     s.set('timeout', int(timeout_s * 1000))
     s.add(*formulas)
-    timer = threading.Timer(timeout_s + 0.5, s.ctx.interrupt)
-    timer.start()
+    use_alarm = threading.current_thread() is threading.main_thread()
+    old = None
+    if use_alarm:
+        def on_alarm(signum, frame):
+            try:
+                s.ctx.interrupt()
+            except Exception:
+                pass
+        old = signal.signal(signal.SIGALRM, on_alarm)
+        signal.setitimer(signal.ITIMER_REAL, timeout_s + 1.0)
     try:
         res = str(s.check())
     except z3.Z3Exception:
         res = 'unknown'
     finally:
-        timer.cancel()
+        if use_alarm:
+            signal.setitimer(signal.ITIMER_REAL, 0)
+            signal.signal(signal.SIGALRM, old)
     payload = None
     if res == 'sat' and on_model is not None:
         try:
@@ -304,16 +347,26 @@ def discharge(ob, timeout_ms=None, portfolio='fallback', on_model=None):
         return dict(status='discharged', solver='z3-5.1(seq-free abstraction)', seconds=time.time() - t0, model=None, by={'z3-5.1': 'unsat'})
     r, payload = None, None
     if not has_big_numeral(fs):
-        # no constant that could force z3's sequence solver to build a huge model: solve in-process (forking costs ~40 ms per query)
+        # no constant that could force z3's sequence solver to build a huge model: solve in-process (forking costs ~40 ms per query);
+        # if z3 gives up after 5 s the same solver is not asked again - the other solvers take over
         r, payload = inprocess_check(fs, min(timeout_ms, 5000) / 1000.0, on_model)
-        if r == 'unknown':
-            r = None
-    if r is None:
+    else:
         r, payload = isolated_check(fs, timeout_ms / 1000.0, on_model)
     by['z3-5.1'] = r
     status = {'unsat': 'discharged', 'sat': 'refuted'}.get(r, 'unknown')
     solver = 'z3-5.1'
-    if status == 'unknown' or portfolio == 'all':
+    if status == 'unknown' and portfolio != 'all':
+        # z3 5.1 gave up: cvc5 and z3 4.8 race on the same SMT-LIB text; the first decisive answer counts
+        text = to_smt2(ob.hyps, ob.goal)
+        for nm, rr in race_cli(text, timeout_ms / 1000.0).items():
+            by[nm] = rr
+            if rr in ('sat', 'unsat'):
+                st2 = 'discharged' if rr == 'unsat' else 'refuted'
+                if status == 'unknown':
+                    status, solver = st2, nm
+                elif status != st2:
+                    status = 'disagree'
+    elif portfolio == 'all':
         text = to_smt2(ob.hyps, ob.goal)
         for nm, fn in (('cvc5-1.0.3', cvc5_check), ('z3-4.8.12', z3old_check)):
             if status != 'unknown' and portfolio != 'all':
